@@ -1,9 +1,12 @@
 #!/bin/sh
 # run every claimed check's thorough tier once (evidence untouched); report exit codes and times
 cd "$(dirname "$0")/.." || exit 2
-for p in $(python3 -c "import json;print(' '.join(c['property_id'] for c in json.load(open('MANIFEST.json'))['checks']))"); do
+# usage: thorough_all.sh [seed] [properties...]
+seed=${1:-0}; [ $# -gt 0 ] && shift
+props="$*"; [ -z "$props" ] && props=$(python3 -c "import json;print(' '.join(c['property_id'] for c in json.load(open('MANIFEST.json'))['checks']))")
+for p in $props; do
   start=$(date +%s)
-  out=$(VERIF_SEED=${1:-0} VERIF_NO_EVIDENCE=1 timeout 3600 ./check $p --tier thorough 2>&1); rc=$?
+  out=$(VERIF_SEED=$seed VERIF_NO_EVIDENCE=1 timeout 3600 ./check $p --tier thorough 2>&1); rc=$?
   echo "$p rc=$rc $(( $(date +%s) - start ))s $(echo "$out" | tail -1)"
   if [ $rc -ne 0 ]; then echo "$out" | grep "VIOLATION\|MACHINERY\|Error" | head -5; fi
 done
